@@ -31,6 +31,7 @@ package rpm
 //
 //@ func (r *RPM) Package(info *nfpm.Info, w io.Writer) (err error)
 //@   requires info != nil
+//@   requires files.SpecContentsNonNil(info.Contents)
 //@   requires !flag("failed") && !flag("clockRead") && !flag("envRead")
 //@   ensures [C06] loud: implies(err == nil, !flag("failed"))
 //@   ensures [C07] no-clock: implies(!old(info.MTime.IsZero()), !flag("clockRead"))
